@@ -204,15 +204,41 @@ func runJSConvT2J(c *h.Ctx) {
 			cs.Viol("t2j:js-conv:parse-idl", "err", err)
 			return
 		}
-		v := tref.Struct()
-		for _, f := range fields {
-			if cs.R.Chance(85) {
-				x := gen.GenVal(cs.R, f.T, gen.ValCfg{MaxStr: 24, MaxElems: 4}, 2)
-				if f.T.T == tref.BYTE && x.I < 0 {
-					x.I = -(x.I + 1)
+		inner := sc.Root
+		mk := func() *tref.Val {
+			v := tref.Struct()
+			for _, f := range fields {
+				if cs.R.Chance(85) {
+					x := gen.GenVal(cs.R, f.T, gen.ValCfg{MaxStr: 24, MaxElems: 4}, 2)
+					if f.T.T == tref.BYTE && x.I < 0 {
+						x.I = -(x.I + 1)
+					}
+					v.Fs = append(v.Fs, tref.Field{ID: f.ID, V: x})
 				}
-				v.Fs = append(v.Fs, tref.Field{ID: f.ID, V: x})
 			}
+			return v
+		}
+		v := mk()
+		// the annotated struct one level down as well: field value, list element, map value
+		nested := cs.R.Chance(40)
+		var parts []*tref.Val
+		if nested {
+			parts = []*tref.Val{mk(), mk(), mk(), mk()}
+			st := &gen.Type{T: tref.STRUCT, S: inner}
+			wrap := &gen.StructT{Name: "Wrap", Fields: []*gen.FieldT{
+				{ID: 1, Name: "inner", T: st}, {ID: 2, Name: "items", T: &gen.Type{T: tref.LIST, Elem: st}},
+				{ID: 3, Name: "byKey", T: &gen.Type{T: tref.MAP, Key: &gen.Type{T: tref.STRING}, Elem: st}}}}
+			sc.Structs = append(sc.Structs, wrap)
+			sc.Root = wrap
+			v = tref.Struct(tref.Field{ID: 1, V: parts[0]}, tref.Field{ID: 2, V: tref.List(tref.STRUCT, parts[1], parts[2])},
+				tref.Field{ID: 3, V: &tref.Val{T: tref.MAP, KT: tref.STRING, ET: tref.STRUCT, K: []*tref.Val{tref.Str("k")}, L: []*tref.Val{parts[3]}}})
+			cs.Info("idl-nested", sc.IDL())
+			var err error
+			if desc, _, err = ParseRoot(sc, thrift.NewDefaultOptions()); err != nil {
+				cs.Viol("t2j:js-conv:parse-idl", "err", err)
+				return
+			}
+			cs.Cover("js_conv_t2j_nested")
 		}
 		b := tref.Encode(v)
 		cs.Info("model", v.String())
@@ -225,70 +251,99 @@ func runJSConvT2J(c *h.Ctx) {
 			cs.Cover("t2j_error_returned")
 			return
 		}
-		j, perr := ParseJSON(out)
-		if perr != nil || j.K != 'o' {
+		top, perr := ParseJSON(out)
+		if perr != nil || top.K != 'o' {
 			cs.Viol("t2j:js-conv:malformed-json", "out", trunc(string(out)))
 			return
 		}
-		if len(j.Keys) != len(v.Fs) {
-			cs.Viol("t2j:js-conv:member-count", "out", trunc(string(out)))
-			return
-		}
-		for i, fv := range v.Fs {
-			f := sc.Root.Field(fv.ID)
-			jv := j.Vals[i]
-			if j.Keys[i] != f.Name {
-				cs.Viol("t2j:js-conv:member-key", "out", trunc(string(out)))
-				return
+		cmp := func(j *JV, v *tref.Val) bool {
+			if j == nil || j.K != 'o' {
+				cs.Viol("t2j:js-conv:malformed-json", "out", trunc(string(out)))
+				return false
 			}
-			mapped := mapping && isJSConv(f)
-			bad := ""
-			num := func(x *JV, want *tref.Val) string {
-				txt := x.N
-				if mapped {
-					if x.K != 's' {
-						return "mapped number not written as string"
-					}
-					txt = x.S
-				} else if x.K != '#' {
-					return "number expected"
+			if len(j.Keys) != len(v.Fs) {
+				cs.Viol("t2j:js-conv:member-count", "out", trunc(string(out)))
+				return false
+			}
+			for i, fv := range v.Fs {
+				f := inner.Field(fv.ID)
+				jv := j.Vals[i]
+				if j.Keys[i] != f.Name {
+					cs.Viol("t2j:js-conv:member-key", "out", trunc(string(out)))
+					return false
 				}
-				if want.T == tref.DOUBLE {
-					if math.IsNaN(want.F) || math.IsInf(want.F, 0) {
+				mapped := mapping && isJSConv(f)
+				bad := ""
+				num := func(x *JV, want *tref.Val) string {
+					txt := x.N
+					if mapped {
+						if x.K != 's' {
+							return "mapped number not written as string"
+						}
+						txt = x.S
+					} else if x.K != '#' {
+						return "number expected"
+					}
+					if want.T == tref.DOUBLE {
+						if math.IsNaN(want.F) || math.IsInf(want.F, 0) {
+							return ""
+						}
+						g, e := strconv.ParseFloat(txt, 64)
+						if e != nil || math.Float64bits(g) != math.Float64bits(want.F) {
+							return "double differs"
+						}
 						return ""
 					}
-					g, e := strconv.ParseFloat(txt, 64)
-					if e != nil || math.Float64bits(g) != math.Float64bits(want.F) {
-						return "double differs"
+					g, e := strconv.ParseInt(txt, 10, 64)
+					if e != nil || g != want.I {
+						return "integer differs"
 					}
 					return ""
 				}
-				g, e := strconv.ParseInt(txt, 10, 64)
-				if e != nil || g != want.I {
-					return "integer differs"
-				}
-				return ""
-			}
-			switch fv.V.T {
-			case tref.STRING:
-				if jv.K != 's' || jv.S != replaceInvalidUTF8(fv.V.S) {
-					bad = "string differs"
-				}
-			case tref.LIST:
-				if jv.K != 'a' || len(jv.A) != len(fv.V.L) {
-					bad = "array differs"
-				} else {
-					for k := range fv.V.L {
-						if m := num(jv.A[k], fv.V.L[k]); m != "" {
-							bad = m
+				switch fv.V.T {
+				case tref.STRING:
+					if jv.K != 's' || jv.S != replaceInvalidUTF8(fv.V.S) {
+						bad = "string differs"
+					}
+				case tref.LIST:
+					if jv.K != 'a' || len(jv.A) != len(fv.V.L) {
+						bad = "array differs"
+					} else {
+						for k := range fv.V.L {
+							if m := num(jv.A[k], fv.V.L[k]); m != "" {
+								bad = m
+							}
 						}
 					}
+				default:
+					bad = num(jv, fv.V)
 				}
-			default:
-				bad = num(jv, fv.V)
+				if bad != "" {
+					cs.Viol("t2j:js-conv:value:"+tref.TypeName(fv.V.T), "field", f.Name, "mismatch", bad, "mapped", mapped, "out", trunc(string(out)))
+					return false
+				}
 			}
-			if bad != "" {
-				cs.Viol("t2j:js-conv:value:"+tref.TypeName(fv.V.T), "field", f.Name, "mismatch", bad, "mapped", mapped, "out", trunc(string(out)))
+			return true
+		}
+		if !nested {
+			if !cmp(top, v) {
+				return
+			}
+		} else {
+			get := func(o *JV, k string) *JV {
+				for i := range o.Keys {
+					if o.Keys[i] == k {
+						return o.Vals[i]
+					}
+				}
+				return nil
+			}
+			items, byKey := get(top, "items"), get(top, "byKey")
+			if items == nil || items.K != 'a' || len(items.A) != 2 || byKey == nil || byKey.K != 'o' {
+				cs.Viol("t2j:js-conv:nested-shape", "out", trunc(string(out)))
+				return
+			}
+			if !cmp(get(top, "inner"), parts[0]) || !cmp(items.A[0], parts[1]) || !cmp(items.A[1], parts[2]) || !cmp(get(byKey, "k"), parts[3]) {
 				return
 			}
 		}
